@@ -1072,9 +1072,16 @@ func (m *Machine) chanSend(fr *frame, ch *Chan, v Value) {
 		fr.goPanic("send on closed channel", "")
 	}
 	ch.Buf = append(ch.Buf, copyVal(v))
+	if m.sched() != nil {
+		m.yield(nil, "")
+	}
 }
 
 func (m *Machine) chanRecv(fr *frame, ch *Chan, et types.Type) (Value, bool) {
+	if m.sched() != nil {
+		site := fr.site()
+		m.yield(func() bool { return ch != nil && (len(ch.Buf) > 0 || ch.Closed || ch.Timer) }, "receive at "+site)
+	}
 	if ch == nil {
 		m.abort(abBlocked, "receive from nil channel at %s", fr.site())
 	}
@@ -1094,6 +1101,9 @@ func (m *Machine) chanRecv(fr *frame, ch *Chan, et types.Type) (Value, bool) {
 }
 
 func (m *Machine) selectOp(fr *frame, instr *ssa.Select) Value {
+	if m.sched() != nil && instr.Blocking {
+		return m.selectSched(fr, instr)
+	}
 	chosen := -1
 	var recv Value
 	recvOk := false
@@ -1156,4 +1166,63 @@ func (m *Machine) onMapAccess(fr *frame, mp *Map, write bool) {
 	if m.env["watch"] != nil {
 		m.recordAccess(fr, mp, write)
 	}
+}
+
+// selectSched: blocking select under the scheduler. The thread waits until a
+// case is ready; a timer case is always a candidate (arbitrary timing), the
+// case taken is a forked choice among the candidates.
+func (m *Machine) selectSched(fr *frame, instr *ssa.Select) Value {
+	ready := func() []int {
+		var r []int
+		for i, st := range instr.States {
+			ch, _ := fr.get(st.Chan).(*Chan)
+			if ch == nil {
+				continue
+			}
+			if st.Dir == types.RecvOnly {
+				// timers fire (at an arbitrary moment) only where the harness
+				// asks for slow peers; otherwise peers are prompt and a timer
+				// never wins against an answer that will arrive
+				if len(ch.Buf) > 0 || ch.Closed || (ch.Timer && m.cfg("sched.timersFire")) {
+					r = append(r, i)
+				}
+			} else {
+				r = append(r, i)
+			}
+		}
+		return r
+	}
+	site := fr.site()
+	m.yield(func() bool { return len(ready()) > 0 }, "select at "+site)
+	cand := ready()
+	chosen := cand[m.Choose(len(cand))]
+	st := instr.States[chosen]
+	ch := fr.get(st.Chan).(*Chan)
+	var recv Value
+	recvOk := false
+	if st.Dir == types.RecvOnly {
+		et := st.Chan.Type().Underlying().(*types.Chan).Elem()
+		switch {
+		case len(ch.Buf) > 0:
+			recv, recvOk = ch.Buf[0], true
+			ch.Buf = ch.Buf[1:]
+		case ch.Closed:
+			recv, recvOk = m.zero(et), false
+		default: // timer fires
+			recv, recvOk = m.zero(et), true
+		}
+	} else {
+		ch.Buf = append(ch.Buf, copyVal(fr.get(st.Send)))
+	}
+	r := Tuple{m.i64(int64(chosen)), m.C.Bool(recvOk)}
+	for i, s2 := range instr.States {
+		if s2.Dir == types.RecvOnly {
+			if i == chosen && recvOk {
+				r = append(r, recv)
+			} else {
+				r = append(r, m.zero(s2.Chan.Type().Underlying().(*types.Chan).Elem()))
+			}
+		}
+	}
+	return r
 }
